@@ -181,7 +181,7 @@ impl App {
 
     fn setup(&mut self, backend: &str) -> String {
         *self = App::new();
-        for i in 0..6 {
+        for i in 0..7 {
             let b = if i == 3 { backend } else { "mem" };
             let line = format!("client {i} {b} 5");
             let t: Vec<&str> = line.split_whitespace().collect();
@@ -203,6 +203,41 @@ impl App {
         for j in [1usize, 2, 3] {
             let ok = wm!(self.w.clients[j].mdk.as_ref().unwrap(), |m| matches!(m.process_message(&commit), Ok(MessageProcessingResult::Commit { .. })));
             assert!(ok, "removal commit must apply at {j}");
+        }
+        "ok".into()
+    }
+
+    /// `swap`: A removes B (client 1) from g0 and then adds F (client 6); C, R (and F through its welcome) follow,
+    /// B is not told (a second stale ex-member).  OpenMLS puts the new member into the leftmost blank leaf, so F
+    /// now occupies the leaf B's earlier ciphertexts were sent from.
+    fn swap(&mut self) -> String {
+        let g0 = self.gids[0].clone();
+        let pk1 = self.pk(1);
+        let c1 = wm!(self.w.clients[0].mdk.as_ref().unwrap(), |m| {
+            let r = m.remove_members(&g0, &[pk1]).expect("remove");
+            m.merge_pending_commit(&g0).expect("merge");
+            r.evolution_event
+        });
+        for j in [2usize, 3] {
+            let ok = wm!(self.w.clients[j].mdk.as_ref().unwrap(), |m| matches!(m.process_message(&c1), Ok(MessageProcessingResult::Commit { .. })));
+            assert!(ok, "swap: removal commit must apply at {j}");
+        }
+        let kp = self.kp(6);
+        let res = wm!(self.w.clients[0].mdk.as_ref().unwrap(), |m| {
+            let r = m.add_members(&g0, &[kp]).expect("add");
+            m.merge_pending_commit(&g0).expect("merge");
+            r
+        });
+        for j in [2usize, 3] {
+            let ok = wm!(self.w.clients[j].mdk.as_ref().unwrap(), |m| matches!(m.process_message(&res.evolution_event), Ok(MessageProcessingResult::Commit { .. })));
+            assert!(ok, "swap: add commit must apply at {j}");
+        }
+        if let Some(rumors) = &res.welcome_rumors {
+            let wid = EventId::from_byte_array([0xEDu8; 32]);
+            wm!(self.w.clients[6].mdk.as_ref().unwrap(), |m| {
+                let w = m.process_welcome(&wid, &rumors[0]).expect("process_welcome");
+                m.accept_welcome(&w).expect("accept_welcome");
+            });
         }
         "ok".into()
     }
@@ -347,6 +382,7 @@ impl App {
                 (r, Some(u(t[1]) as usize))
             }
             "adv" => (self.adv(t), None),
+            "swap" => (self.swap(), None),
             "rewrap" | "retag" => {
                 let e = self.events[u(t[1]) as usize].event.clone();
                 let tags: Vec<Tag> = if t[0] == "rewrap" { e.tags.iter().cloned().collect() } else { vec![Tag::custom(TagKind::h(), [hex::encode(self.nids[u(t[2]) as usize])])] };
